@@ -644,6 +644,16 @@ class Engine:
         if isinstance(v, Fraction):
             return v != 0
         if isinstance(v, SInt):
+            if v.cells is not None and v._term is None and all(not isinstance(x, IRef) for x in v.cells):
+                conds = []
+                for x in v.cells:
+                    xb = B.norm(x)
+                    if isinstance(xb, int):
+                        if xb:
+                            return True
+                        continue
+                    conds.append(B.to_z3(xb))
+                return c_or(*conds)
             return v.term != 0
         if isinstance(v, SReal):
             return v.term != 0
